@@ -316,6 +316,28 @@ def hex_sexp(toks):
     return s or "( e )"
 
 
+def hex_pat(toks):
+    """the token language of the interval-based hex reference (ocaml/cmds/42_hexfast.ml, Spec/HexSpec.v)"""
+    out = []
+    for t in toks:
+        k = t[0]
+        if k == "b":
+            out.append("t ( b %d )" % t[1])
+        elif k == "any":
+            out.append("t ( any )")
+        elif k == "mask":
+            out.append("t ( mask %d %d )" % (t[1], t[2]))
+        elif k == "notb":
+            out.append("t ( not ( b %d ) )" % t[1])
+        elif k == "notmask":
+            out.append("t ( not ( mask %d %d ) )" % (t[1], t[2]))
+        elif k == "jump":
+            out.append("ji %d" % t[1] if t[2] is None else "j %d %d" % (t[1], t[2]))
+        elif k == "alt":
+            out.append("a " + " ".join("[ %s ]" % hex_pat(a) for a in t[1]) + " ;")
+    return " ".join(out)
+
+
 def sample_match(rng, sexp_tokens, maxlen=40):
     """a byte string in the language (best effort), used to plant occurrences"""
     toks = sexp_tokens.split()
